@@ -488,7 +488,8 @@ if __name__ == "__main__":
              "(length 1-8), mixed per triangle (linear); weights None / list / dict of scalars, lists, 1-D, 2-D arrays, "
              "global or per-cell, one matrix; convex dyadic (and arbitrary dyadic for linear); both methods, method "
              "spelling; seeds incl. None; streams: plain, degenerate e_j weights, agreeing inputs, single triangle + "
-             "dict (D17), 20 refusal causes one at a time. distinct = distinct canonical request; non-trivial = at "
+             "dict (D17), 21 refusal causes one at a time (incl. incremental triangles differing only in one "
+             "prev_evaluation_date). distinct = distinct canonical request; non-trivial = at "
              "least one cell",
         assumptions=[
             "OUTSIDE THE MODEL: numpy's legacy RNG (np.random.seed/choice). The drawn index vectors are recorded "
